@@ -567,3 +567,6 @@ M("C30", "twin: phase gradient only for driven qubits", "twin",
   [(TE, "            grad_phis = torch.zeros_like(phis)\n            for i in range(nqubits):", "            grad_phis = torch.zeros_like(phis)\n            for i in omegas.nonzero().flatten().tolist():")])
 M("C31", "SparseOperator.__deepcopy__ reads Pulser-created fields the constructor never sets", "kill",
   [("emu_sv/sparse_operator.py", "        memo[id(self)] = result\n        return result", "        memo[id(self)] = result\n        result._eigenstates = self._eigenstates\n        return result")], "APICOMPAT-basestate")
+M("C32", "random starts drawn into one shared buffer", "kill",
+  [("emu_mps/optimatrix/optimiser.py", "    rnd_permutations = itertools.chain(\n        [torch.arange(L)],  # identity permutation\n        [torch.randperm(L) for _ in range(samples)],  # list of random permutations\n    )",
+    "    start_perm = torch.arange(L)\n    rnd_permutations = itertools.chain(\n        [start_perm],\n        (torch.randperm(L, out=start_perm) for _ in range(samples)),\n    )")], "ARGMIN")
